@@ -175,6 +175,14 @@ def as_listv(eng, x, st, n, want=None):
         for y in x.z:
             s = z3.Store(s, eng.coerce(eng.lift(y), want.elem, n).z, True)
         return V(want, want.mk(s, z3.IntVal(len(x.z)))), st
+    if t.name in eng.iter_hooks:
+        ety, member, uniq = eng.iter_hooks[t.name](eng, x, st)
+        lt = T.ListV(ety)
+        y = ety.fresh("y")
+        r, st = eng.fresh(lt, "lst", st)
+        if uniq:
+            r.aux = ("unique",)
+        return r, st.assume(lt.elems(r.z) == z3.Lambda([y], member(y)))
     raise Unsupported(f"cannot view {t} as a list", n)
 
 
